@@ -55,10 +55,27 @@ func walkCallback(r *an.Run) (f, clo *ssa.Function, walk ssa.CallInstruction) {
 	case *ssa.Function:
 		clo = v
 	}
-	if clo == nil {
-		r.Undecided(short(f)+"|callback", walk.Pos(), "the walk callback is not a function literal")
+	// a method value (`filepath.Walk(path, collector.visit)`): the bound-method wrapper stands for the method;
+	// its last three parameters are those of a WalkFunc
+	if clo != nil && clo.Synthetic != "" && len(clo.Blocks) == 1 {
+		for _, c := range an.Calls(clo) {
+			if sc := an.StaticCallee(c); sc != nil && sc.Blocks != nil {
+				clo = sc
+			}
+		}
+	}
+	if clo == nil || len(clo.Params) < 3 {
+		clo = nil
+		r.Undecided(short(f)+"|callback", walk.Pos(), "the walk callback is not a function literal or a method value")
 	}
 	return
+}
+
+// walkParams returns the path, entry and error parameters of a walk callback
+// (the last three: a method has its receiver in front).
+func walkParams(clo *ssa.Function) (pathP, infoP, errP *ssa.Parameter) {
+	n := len(clo.Params)
+	return clo.Params[n-3], clo.Params[n-2], clo.Params[n-1]
 }
 
 func c15WalkTable(r *an.Run) {
@@ -67,7 +84,7 @@ func c15WalkTable(r *an.Run) {
 	if clo == nil {
 		return
 	}
-	pathP, infoP, errP := clo.Params[0], clo.Params[1], clo.Params[2]
+	pathP, infoP, errP := walkParams(clo)
 	isMode := func(v ssa.Value) bool {
 		c, ok := v.(*ssa.Call)
 		if !ok {
@@ -145,6 +162,12 @@ func c15WalkTable(r *an.Run) {
 		if st, ok := in.(*ssa.Store); ok {
 			if fv, ok := st.Addr.(*ssa.FreeVar); ok && strings.HasPrefix(an.ShortType(fv.Type()), "*[]") {
 				if c, ok := st.Val.(*ssa.Call); ok && an.IsCallTo(c, "builtin:append") {
+					appendBlock = st.Block()
+				}
+			}
+			// the list as a field of the receiver the callback is a method of
+			if fa, ok := st.Addr.(*ssa.FieldAddr); ok && clo.Signature.Recv() != nil && fa.X == ssa.Value(clo.Params[0]) {
+				if c, ok := st.Val.(*ssa.Call); ok && an.IsCallTo(c, "builtin:append") && strings.HasPrefix(an.ShortType(c.Type()), "[]") {
 					appendBlock = st.Block()
 				}
 			}
@@ -276,7 +299,7 @@ func c15NoSymlinks(r *an.Run) {
 	good := false
 	for _, c := range an.Calls(clo) {
 		if an.IsCallTo(c, "(io/fs.FileMode).IsRegular") {
-			if m, ok := c.Common().Args[0].(*ssa.Call); ok && m.Call.IsInvoke() && m.Call.Value == ssa.Value(clo.Params[1]) {
+			if m, ok := c.Common().Args[0].(*ssa.Call); ok && m.Call.IsInvoke() && m.Call.Value == ssa.Value(clo.Params[len(clo.Params)-2]) {
 				good = true
 			}
 		}
